@@ -129,11 +129,26 @@ def solve_one(job):
         stringy = 'str.' in ob.goal.sexpr() or any('str.' in p.sexpr() for p in ob.pc[-40:])
     except Exception:
         stringy = False
+    smt = None
     if stringy and use_cvc5:
-        z3_budget = min(timeout_ms, 6000)      # word equations: z3 answers at once or not at all; cvc5 takes over
+        # word equations / regex membership: a short z3 attempt (most are immediate), then cvc5 (it decides what z3
+        # leaves open), then z3 again as the fallback
+        res, dt, info = _run_z3_direct(ob, 2500, axioms)
+        if res in ('unsat', 'sat'):
+            return idx, res, dt, info, 'z3'
+        try:
+            smt = ob.smt2(axioms)
+        except Exception:
+            smt = None
+        if smt and 'lambda' not in smt and 'define-fun-rec' not in smt:
+            r2, dt2, info2 = _run_cli(['/usr/bin/cvc5', '--strings-exp', '--tlimit=%d' % (2 * timeout_ms)],
+                                      _to_cvc5(smt), 2 * timeout_ms / 1000 + 5)
+            if r2 == 'unsat':
+                return idx, r2, dt2, None, 'cvc5'
+        z3_budget = min(timeout_ms, 8000)
     res, dt, info = _run_z3_direct(ob, z3_budget, axioms)
     solver = 'z3'
-    if res in ('unknown', 'error') and use_cvc5:
+    if res in ('unknown', 'error') and use_cvc5 and not stringy:
         try:
             smt = ob.smt2(axioms)
         except Exception:
